@@ -37,6 +37,7 @@ const MUXES: [&str; 2] = ["Require", "Negotiate"];
 const TCPS: [&str; 3] = ["Disabled", "Enabled", "PassiveOnly"];
 const COMPATS: [&str; 2] = ["Standard", "LegacySip"];
 
+const NF: usize = 14;
 #[derive(Clone, Copy, Debug, PartialEq, Eq, PartialOrd, Ord, Hash)]
 struct Point {
     mode: usize,
@@ -49,6 +50,10 @@ struct Point {
     latching: bool,
     compat: usize,
     s_offers: bool,
+    mux_p: usize,      // rtcp-mux policy of the peer P (mux is S's)
+    compat_p: usize,   // SDP compatibility mode of the peer P (compat is S's)
+    tcp_only: bool,    // ice_gather_udp_hosts = false on both ends (ICE-TCP is the only path)
+    dcep: bool,        // the data channel is opened in-band (DCEP) by the offerer instead of negotiated on both ends
 }
 
 impl Point {
@@ -58,27 +63,31 @@ impl Point {
     fn webrtc(&self) -> bool { self.mode == 0 }
     /// transcription of `point_valid` (the Coq side re-checks it on every case)
     fn valid(&self) -> bool {
-        let cfg_wf = (!self.udp_mux || self.webrtc()) && (self.tcp == 0 || self.webrtc());
+        let cfg_wf = (!self.udp_mux || self.webrtc()) && (self.tcp == 0 || self.webrtc())
+            && (!self.tcp_only || (self.tcp == 1 && !self.udp_mux));
         let mix_wf = !self.has_data() || self.webrtc();
-        let canonical = self.ice_lite || self.udp_mux || self.s_offers;
+        let canonical = (self.ice_lite || self.udp_mux || self.s_offers) && (!self.dcep || self.has_data());
         cfg_wf && mix_wf && canonical
     }
-    fn fields(&self) -> [usize; 10] {
+    fn fields(&self) -> [usize; NF] {
         [self.mode, self.mix, self.bundle, self.mux, self.ice_lite as usize, self.tcp, self.udp_mux as usize,
-         self.latching as usize, self.compat, self.s_offers as usize]
+         self.latching as usize, self.compat, self.s_offers as usize, self.mux_p, self.compat_p,
+         self.tcp_only as usize, self.dcep as usize]
     }
     fn term(&self) -> String {
         format!(
-            "(mkPoint TransportMode_{} Mix_{} BundlePolicy_{} RtcpMuxPolicy_{} {} IceTcpPolicy_{} {} {} SdpCompatibilityMode_{} {})",
+            "(mkPoint TransportMode_{} Mix_{} BundlePolicy_{} RtcpMuxPolicy_{} {} IceTcpPolicy_{} {} {} SdpCompatibilityMode_{} {} RtcpMuxPolicy_{} SdpCompatibilityMode_{} {} {})",
             MODES[self.mode], MIXES[self.mix], BUNDLES[self.bundle], MUXES[self.mux], bool_term(self.ice_lite),
-            TCPS[self.tcp], bool_term(self.udp_mux), bool_term(self.latching), COMPATS[self.compat], bool_term(self.s_offers)
+            TCPS[self.tcp], bool_term(self.udp_mux), bool_term(self.latching), COMPATS[self.compat], bool_term(self.s_offers),
+            MUXES[self.mux_p], COMPATS[self.compat_p], bool_term(self.tcp_only), bool_term(self.dcep)
         )
     }
     fn json(&self) -> serde_json::Value {
         json!({"mode": MODES[self.mode], "mix": MIXES[self.mix], "bundle_policy": BUNDLES[self.bundle],
-               "rtcp_mux_policy": MUXES[self.mux], "ice_lite_on_S": self.ice_lite, "ice_tcp": TCPS[self.tcp],
-               "udp_mux_on_S": self.udp_mux, "latching": self.latching, "compat": COMPATS[self.compat],
-               "S_offers": self.s_offers})
+               "rtcp_mux_policy_S": MUXES[self.mux], "ice_lite_on_S": self.ice_lite, "ice_tcp": TCPS[self.tcp],
+               "udp_mux_on_S": self.udp_mux, "latching": self.latching, "compat_S": COMPATS[self.compat],
+               "S_offers": self.s_offers, "rtcp_mux_policy_P": MUXES[self.mux_p], "compat_P": COMPATS[self.compat_p],
+               "tcp_only": self.tcp_only, "dcep": self.dcep})
     }
     fn key(&self) -> String { format!("{:?}", self.fields()) }
 }
@@ -87,34 +96,46 @@ fn all_points() -> Vec<Point> {
     let mut v = Vec::new();
     for mode in 0..3 { for mix in 0..7 { for bundle in 0..3 { for mux in 0..2 { for lite in 0..2 {
     for tcp in 0..3 { for um in 0..2 { for la in 0..2 { for compat in 0..2 { for so in 0..2 {
-        v.push(Point { mode, mix, bundle, mux, ice_lite: lite == 1, tcp, udp_mux: um == 1, latching: la == 1, compat, s_offers: so == 1 });
+    for mux_p in 0..2 { for compat_p in 0..2 { for to in 0..2 { for dc in 0..2 {
+        let p = Point { mode, mix, bundle, mux, ice_lite: lite == 1, tcp, udp_mux: um == 1, latching: la == 1, compat, s_offers: so == 1,
+                        mux_p, compat_p, tcp_only: to == 1, dcep: dc == 1 };
+        if p.valid() { v.push(p); }
+    }}}}
     }}}}}}}}}}
     v
 }
-fn lattice() -> Vec<Point> { all_points().into_iter().filter(|p| p.valid()).collect() }
+fn lattice() -> Vec<Point> { all_points() }
 
 /// greedy pairwise covering array: every pair of option values that occurs together in some lattice
 /// point occurs together in some selected point
 fn pairwise(lat: &[Point], rng: &mut Rng) -> Vec<Point> {
-    let mut need: BTreeSet<(usize, usize, usize, usize)> = BTreeSet::new();
+    use std::collections::HashSet;
+    let mut need: HashSet<(u8, u8, u8, u8)> = HashSet::new();
     for p in lat {
         let f = p.fields();
-        for i in 0..10 { for j in (i + 1)..10 { need.insert((i, f[i], j, f[j])); } }
+        for i in 0..NF { for j in (i + 1)..NF { need.insert((i as u8, f[i] as u8, j as u8, f[j] as u8)); } }
     }
+    let gain = |p: &Point, need: &HashSet<(u8, u8, u8, u8)>| {
+        let f = p.fields();
+        let mut c = 0;
+        for i in 0..NF { for j in (i + 1)..NF { if need.contains(&(i as u8, f[i] as u8, j as u8, f[j] as u8)) { c += 1; } } }
+        c
+    };
     let mut out = Vec::new();
-    let mut order: Vec<usize> = (0..lat.len()).collect();
-    for i in (1..order.len()).rev() { let j = rng.below(i as u64 + 1) as usize; order.swap(i, j); }
     while !need.is_empty() {
+        // best of a random sample of candidates (the lattice is large); fall back to a full scan near the end
         let mut best = (0usize, 0usize);
-        for &k in &order {
-            let f = lat[k].fields();
-            let mut c = 0;
-            for i in 0..10 { for j in (i + 1)..10 { if need.contains(&(i, f[i], j, f[j])) { c += 1; } } }
+        for _ in 0..1500 {
+            let k = rng.below(lat.len() as u64) as usize;
+            let c = gain(&lat[k], &need);
             if c > best.0 { best = (c, k); }
+        }
+        if best.0 < 3 {
+            for k in 0..lat.len() { let c = gain(&lat[k], &need); if c > best.0 { best = (c, k); } }
         }
         if best.0 == 0 { break; }
         let f = lat[best.1].fields();
-        for i in 0..10 { for j in (i + 1)..10 { need.remove(&(i, f[i], j, f[j])); } }
+        for i in 0..NF { for j in (i + 1)..NF { need.remove(&(i as u8, f[i] as u8, j as u8, f[j] as u8)); } }
         out.push(lat[best.1]);
     }
     out
@@ -126,14 +147,29 @@ fn free_udp_port() -> u16 {
     s.local_addr().unwrap().port()
 }
 
-fn make_cfg(p: &Point, is_s: bool) -> RtcConfiguration {
+fn free_tcp_port() -> u16 {
+    let s = std::net::TcpListener::bind("127.0.0.1:0").unwrap();
+    s.local_addr().unwrap().port()
+}
+
+fn make_cfg(p: &Point, is_s: bool, is_answerer: bool) -> RtcConfiguration {
     let mut c = RtcConfiguration::default();
     c.transport_mode = [TransportMode::WebRtc, TransportMode::Srtp, TransportMode::Rtp][p.mode].clone();
     c.bundle_policy = [BundlePolicy::Balanced, BundlePolicy::MaxCompat, BundlePolicy::MaxBundle][p.bundle].clone();
-    c.rtcp_mux_policy = [RtcpMuxPolicy::Require, RtcpMuxPolicy::Negotiate][p.mux].clone();
+    c.rtcp_mux_policy = [RtcpMuxPolicy::Require, RtcpMuxPolicy::Negotiate][if is_s { p.mux } else { p.mux_p }].clone();
     c.ice_tcp_policy = [IceTcpPolicy::Disabled, IceTcpPolicy::Enabled, IceTcpPolicy::PassiveOnly][p.tcp].clone();
     c.enable_latching = p.latching;
-    c.sdp_compatibility = [SdpCompatibilityMode::Standard, SdpCompatibilityMode::LegacySip][p.compat].clone();
+    c.sdp_compatibility = [SdpCompatibilityMode::Standard, SdpCompatibilityMode::LegacySip][if is_s { p.compat } else { p.compat_p }].clone();
+    if p.tcp_only {
+        // ICE-TCP as the only path: no UDP host candidates; the answerer (controlled) listens on a TCP port
+        // (passive candidate), the offerer (controlling) advertises active candidates and connects out
+        c.ice_gather_udp_hosts = false;
+        if is_answerer {
+            let port = free_tcp_port();
+            c.tcp_port_range_start = Some(port);
+            c.tcp_port_range_end = Some(port);
+        }
+    }
     c.enable_ice_lite = is_s && p.ice_lite;
     if is_s && p.udp_mux {
         c.ice_udp_mux = true;
@@ -151,7 +187,9 @@ struct Keys { profile: String, tx_key: Vec<u8>, tx_salt: Vec<u8>, rx_key: Vec<u8
 
 #[derive(Clone, Debug, Default)]
 struct SideObs {
-    setup: Option<String>,
+    setup: Option<String>,          // what set_remote_description of the peer picks: first media-level, else session-level
+    setups: Vec<String>,            // media-level values in section order
+    session_setup: Option<String>,
     setups_all_equal: bool,
     bundle: bool,
     mux_any: bool,
@@ -211,7 +249,9 @@ fn describe(d: &SessionDescription, o: &mut SideObs) {
             mux.push(m.attributes.iter().any(|a| a.key == "rtcp-mux"));
         }
     }
-    o.setup = setups.first().cloned();
+    o.session_setup = d.session.attributes.iter().find(|a| a.key == "setup").and_then(|a| a.value.clone());
+    o.setup = setups.first().cloned().or(o.session_setup.clone());
+    o.setups = setups.clone();
     o.setups_all_equal = setups.windows(2).all(|w| w[0] == w[1])
         && (setups.is_empty() || setups.len() == d.media_sections.len());
     o.bundle = d.session.attributes.iter().any(|a| a.key == "group" && a.value.as_deref().is_some_and(|v| v.starts_with("BUNDLE")));
@@ -252,6 +292,7 @@ struct RunResult {
     connect_ms: u64,
     data_ok: Option<(bool, bool)>,                 // (offerer->answerer, answerer->offerer)
     data_ms: u64,
+    dcep_label_ok: Option<bool>,
     diag: Option<String>,
     rtp_ok: BTreeMap<String, (bool, bool)>,        // kind -> (off->ans, ans->off)
     off: SideObs,
@@ -386,16 +427,24 @@ async fn run_point(p: Point, tmo: &Timeouts) -> RunResult {
     macro_rules! bail { ($stage:expr, $e:expr) => {{ r.stage = $stage.into(); r.error = Some($e); return r; }}; }
     let direct = !p.webrtc();
     let (off_is_s, ans_is_s) = (p.s_offers, !p.s_offers);
-    let off = PeerConnection::new(make_cfg(&p, off_is_s));
-    let ans = PeerConnection::new(make_cfg(&p, ans_is_s));
+    let off = PeerConnection::new(make_cfg(&p, off_is_s, false));
+    let ans = PeerConnection::new(make_cfg(&p, ans_is_s, true));
 
     // data channel (negotiated id 0 on both ends) and media (one sendrecv track per kind on both ends)
     let mut dcs = None;
-    if p.has_data() {
+    let mut dcep_off = None;
+    if p.has_data() && !p.dcep {
         let mk = |pc: &PeerConnection| pc.create_data_channel("c10", Some(DataChannelConfig { negotiated: Some(0), ..Default::default() }));
         match (mk(&off), mk(&ans)) {
             (Ok(a), Ok(b)) => dcs = Some((a, b)),
             (a, b) => bail!("create_data_channel", format!("{:?} / {:?}", a.err().map(|e| e.to_string()), b.err().map(|e| e.to_string()))),
+        }
+    }
+    if p.has_data() && p.dcep {
+        // in-band: only the offerer creates the channel (before the offer); the answerer learns it through DCEP
+        match off.create_data_channel("c10-dcep", None) {
+            Ok(a) => dcep_off = Some(a),
+            Err(e) => bail!("create_data_channel(dcep)", e.to_string()),
         }
     }
     let off_media = match add_media(&off, &p) { Ok(v) => v, Err(e) => bail!("add_track(offerer)", e) };
@@ -441,6 +490,29 @@ async fn run_point(p: Point, tmo: &Timeouts) -> RunResult {
     }
     if r.connected {
         r.stage = "connected".into();
+        if let Some(dc_off) = &dcep_off {
+            // the answerer's PeerConnection announces the in-band channel
+            let t1 = Instant::now();
+            let mut got = None;
+            while t1.elapsed() < tmo.deliver_data && got.is_none() {
+                match tokio::time::timeout(Duration::from_millis(500), ans.recv()).await {
+                    Ok(Some(rustrtc::PeerConnectionEvent::DataChannel(dc))) => got = Some(dc),
+                    Ok(Some(_)) => {}
+                    Ok(None) => break,
+                    Err(_) => {}
+                }
+            }
+            match got {
+                Some(dc_ans) => {
+                    r.dcep_label_ok = Some(dc_ans.label == "c10-dcep" && dc_ans.id == dc_off.id);
+                    dcs = Some((dc_off.clone(), dc_ans));
+                }
+                None => {
+                    r.data_ok = Some((false, false));
+                    r.diag = Some(format!("no DataChannel event on the answerer; offerer sctp: {:?}; answerer sctp: {:?}", off.sctp_diagnostic_info(), ans.sctp_diagnostic_info()));
+                }
+            }
+        }
         if let Some((dc_off, dc_ans)) = &dcs {
             let t1 = Instant::now();
             let a = dc_one_way(&off, dc_off.id, dc_ans, b"C10 data offerer->answerer \x00\x01\xfe\xff", tmo.deliver_data).await;
@@ -485,11 +557,15 @@ fn suite_term(s: &Option<String>) -> String {
         Some(_) => "(Some Suite_unknown)".into(),
     }
 }
+fn setup_ctor(s: &str) -> &'static str {
+    match s { "active" => "Setup_active", "passive" => "Setup_passive", "actpass" => "Setup_actpass", "holdconn" => "Setup_holdconn", _ => "Setup_other" }
+}
 fn side_term(o: &SideObs) -> String {
     let keys = o.keys.as_ref().map(|k| format!("(mkKeys SrtpProfile_{} {} {} {} {})", k.profile,
         bytes_term(&k.tx_key), bytes_term(&k.tx_salt), bytes_term(&k.rx_key), bytes_term(&k.rx_salt)));
-    format!("(mkSide {} {} {} {} {} {} {} {} {} {} {})",
-        setup_term(&o.setup), bool_term(o.bundle), bool_term(o.mux_any),
+    let setups: Vec<String> = o.setups.iter().map(|s| setup_ctor(s).to_string()).collect();
+    format!("(mkSide {} {} {} {} {} {} {} {} {} {} {} {})",
+        list_term(&setups), setup_term(&o.session_setup), bool_term(o.bundle), bool_term(o.mux_any),
         opt_term(o.role.map(|b| bool_term(b).to_string())), opt_term(o.dtls_client.map(|b| bool_term(b).to_string())),
         opt_term(o.profile.map(|c| c.to_string())), bytes_term(&o.exporter), suite_term(&o.suite),
         bytes_term(&o.sdes_local), bytes_term(&o.sdes_remote), opt_term(keys))
@@ -560,6 +636,7 @@ fn oracle(p: &Point, r: &RunResult) -> (Vec<String>, Vec<String>) {
     if p.mode == 2 && (r.off.keys.is_some() || r.ans.keys.is_some()) { logic.push("plain RTP mode installed an SRTP session".into()); }
     if r.connected {
         if let Some((a, b)) = r.data_ok {
+            if r.dcep_label_ok == Some(false) { runtime.push("in-band data channel announced with a different label / stream id".into()); }
             if !a { runtime.push("data-channel message offerer->answerer not delivered intact".into()); }
             if !b { runtime.push("data-channel message answerer->offerer not delivered intact".into()); }
         }
@@ -574,7 +651,10 @@ fn oracle(p: &Point, r: &RunResult) -> (Vec<String>, Vec<String>) {
 // ------------------------------------------------------------------------------------ known, listed runtime findings
 /// Returns the finding class when this point's *runtime* failure matches a listed class exactly.
 /// transcription of `layout_known_class` (Model/Lattice.v); the Coq side compares it on every case
-fn in_layout_class(p: &Point) -> bool { p.mode == 1 && p.has_audio() && p.has_video() && p.compat == 1 }
+fn in_layout_class(p: &Point) -> bool {
+    let off_compat = if p.s_offers { p.compat } else { p.compat_p };
+    p.mode == 1 && p.has_audio() && p.has_video() && off_compat == 1
+}
 
 fn known_class(p: &Point, r: &RunResult, runtime: &[String]) -> Option<String> {
     // C10-F2: SDES-SRTP mode, audio+video without BUNDLE: both ends report Connected, the descriptions
@@ -612,7 +692,8 @@ fn main() {
     // corpus: the configurations of /repo's own integration tests, the combinations the property text
     // names as untested ("non-BUNDLE video in RTP mode with rtcp-mux negotiate", "UDP mux with ICE-lite"),
     // the witnesses of the listed findings (C10-F1 fixed: SDES callee that answers late; C10-F2 open)
-    let base = Point { mode: 0, mix: 0, bundle: 0, mux: 0, ice_lite: false, tcp: 0, udp_mux: false, latching: false, compat: 0, s_offers: true };
+    let base = Point { mode: 0, mix: 0, bundle: 0, mux: 0, ice_lite: false, tcp: 0, udp_mux: false, latching: false, compat: 0, s_offers: true,
+                       mux_p: 0, compat_p: 0, tcp_only: false, dcep: false };
     let mut corpus: Vec<(Point, u64)> = vec![
         (base, 0),
         (Point { mix: 2, ..base }, 0),
@@ -621,18 +702,30 @@ fn main() {
         (Point { mode: 1, mix: 1, ..base }, 0),
         (Point { mode: 1, mix: 1, ..base }, 300),                  // C10-F1 witness (fixed): must connect
         (Point { mode: 1, mix: 3, ..base }, 300),
-        (Point { mode: 1, mix: 3, compat: 1, ..base }, 0),         // C10-F2 witness (open)
-        (Point { mode: 2, mix: 3, mux: 1, compat: 1, ..base }, 0),
-        (Point { mode: 2, mix: 3, mux: 1, compat: 1, ice_lite: true, s_offers: false, latching: true, ..base }, 100),
+        (Point { mode: 1, mix: 3, compat: 1, compat_p: 1, ..base }, 0),         // C10-F2 witness (open)
+        (Point { mode: 2, mix: 3, mux: 1, mux_p: 1, compat: 1, compat_p: 1, ..base }, 0),
+        (Point { mode: 2, mix: 3, mux: 1, mux_p: 1, compat: 1, compat_p: 1, ice_lite: true, s_offers: false, latching: true, ..base }, 100),
         (Point { mix: 4, udp_mux: true, ice_lite: true, s_offers: false, ..base }, 0),
         (Point { mix: 6, tcp: 1, udp_mux: true, s_offers: true, ..base }, 100),
+        // C10-F4 witnesses (fixed): bundled offer (Standard) answered by a LegacySip endpoint, direct modes
+        (Point { mode: 2, mix: 3, compat: 0, compat_p: 1, ..base }, 0),
+        (Point { mode: 1, mix: 3, compat: 0, compat_p: 1, ..base }, 0),
+        (Point { mode: 2, mix: 3, compat: 1, compat_p: 0, mux: 1, mux_p: 0, ..base }, 0),
+        (Point { mode: 0, mix: 6, compat: 1, compat_p: 0, mux: 0, mux_p: 1, ..base }, 0),
+        // ICE-TCP as the only path; in-band (DCEP) channel
+        (Point { mix: 6, tcp: 1, tcp_only: true, ..base }, 0),
+        (Point { mix: 4, tcp: 1, tcp_only: true, dcep: true, ..base }, 150),
+        (Point { mix: 0, dcep: true, ..base }, 0),
+        (Point { mix: 6, dcep: true, udp_mux: true, ice_lite: true, s_offers: false, compat: 1, ..base }, 0),
     ];
     // C10-F3 witness (fixed): the plain default data-channel pair, several times (it lost SCTP on the offerer in
     // about 1 of 15 runs); distinct answer delays keep the cases distinct
     for k in 1..=6u64 { corpus.push((base, k)); }
     struct Job { p: Point, kind: &'static str, delay_ms: u64 }
     let mut jobs_v: Vec<Job> = corpus.iter().filter(|(p, _)| p.valid()).map(|(p, d)| Job { p: *p, kind: "corpus", delay_ms: *d }).collect();
-    let cover = if thorough { lat.clone() } else { pairwise(&lat, &mut rng) };
+    let cover = if let Some(n) = std::env::var("C10_SAMPLE").ok().and_then(|s| s.parse::<usize>().ok()) {
+        (0..n).map(|_| lat[rng.below(lat.len() as u64) as usize]).collect()   // debugging aid: n random lattice points
+    } else if thorough { lat.clone() } else { pairwise(&lat, &mut rng) };
     let n_cover = cover.len();
     let mut seen: BTreeSet<Point> = jobs_v.iter().filter(|j| j.delay_ms == 0).map(|j| j.p).collect();
     for p in cover {
@@ -640,14 +733,25 @@ fn main() {
         let delay_ms = if rng.chance(1, 3) { 50 + rng.below(201) } else { 0 };
         if seen.insert(p) { jobs_v.push(Job { p, kind: if thorough { "exhaustive" } else { "pairwise" }, delay_ms }); }
     }
+    // quick: the covering array only guarantees pairs; add seeded random lattice points for higher-order
+    // interactions (a point costs ~0.15 s)
+    let n_random = if thorough || std::env::var("C10_SAMPLE").is_ok() { 0 } else { 400 };
+    let by_mode: Vec<Vec<Point>> = (0..3).map(|m| lat.iter().filter(|p| p.mode == m).cloned().collect()).collect();
+    for k in 0..n_random {
+        // stratified by transport mode (WebRtc is 94% of the lattice): half WebRtc, a quarter each direct mode
+        let stratum = &by_mode[[0, 1, 0, 2][k % 4]];
+        let p = stratum[rng.below(stratum.len() as u64) as usize];
+        let delay_ms = if rng.chance(1, 3) { 50 + rng.below(201) } else { 0 };
+        if seen.insert(p) { jobs_v.push(Job { p, kind: "random", delay_ms }); }
+    }
     let base_tmo = Timeouts { gather: Duration::from_secs(10), connect: Duration::from_secs(25), deliver: Duration::from_secs(4), deliver_data: Duration::from_secs(15), answer_delay: Duration::ZERO };
-    // debugging aids: C10_POINT="mode mix bundle mux lite tcp udpmux latching compat s_offers" runs one point and
+    // debugging aids: C10_POINT="mode mix bundle mux lite tcp udpmux latching compat s_offers mux_p compat_p tcp_only dcep" runs one point and
     // prints its SDP; C10_ONLY=<mode name> restricts the run to one transport mode
     if let Ok(spec) = std::env::var("C10_POINT") {
         let f: Vec<usize> = spec.split_whitespace().filter_map(|x| x.parse().ok()).collect();
-        if f.len() == 10 {
+        if f.len() == NF {
             let p = Point { mode: f[0], mix: f[1], bundle: f[2], mux: f[3], ice_lite: f[4] == 1, tcp: f[5], udp_mux: f[6] == 1,
-                            latching: f[7] == 1, compat: f[8], s_offers: f[9] == 1 };
+                            latching: f[7] == 1, compat: f[8], s_offers: f[9] == 1, mux_p: f[10], compat_p: f[11], tcp_only: f[12] == 1, dcep: f[13] == 1 };
             let rep: usize = std::env::var("C10_REPEAT").ok().and_then(|s| s.parse().ok()).unwrap_or(1);
             jobs_v = (0..rep).map(|_| Job { p, kind: "corpus", delay_ms: 0 }).collect();
             let r = run_blocking(p, &base_tmo);
@@ -741,7 +845,7 @@ fn main() {
     }
     out.finish(json!({"generator": {
         "tier": args.tier, "seed": args.seed, "lattice_points": lat.len(), "corpus": corpus.len(),
-        "covering_array_points": n_cover, "points_run": jobs_a.len(), "with_late_answer": n_delayed, "workers": n_workers,
+        "covering_array_points": n_cover, "random_points": n_random, "points_run": jobs_a.len(), "with_late_answer": n_delayed, "workers": n_workers,
         "exploration": {"connected": n_connected, "logic_failures": n_logic, "runtime_failures": n_runtime,
                         "listed_finding_hits": n_known, "retried": retried, "slowest_connect_ms": slowest, "slowest_data_roundtrip_ms": slowest_data, "wall_s": wall.as_secs(),
                         "per_mode_points_and_clean": by_mode, "failing_points": failing},
